@@ -9,7 +9,7 @@ Text content runs through a codec stub (arbitrary bytes / UnicodeError per codec
 import codecs
 import z3
 from symx.values import SInt, SBytes, SBA, SNum, isc, Unsupported
-from symx.explore import check
+from symx.explore import check, PathBudgetExceeded
 from ref import iso_tables as T, decoder
 from . import common, selection as S, datapath as D
 from .common import Result, Batch
@@ -323,7 +323,16 @@ def run_job(spec):
         q = path.value
         v = D.version_const(q.version)
         # the reader runs under its own explorer: fields it branches on that (wrongly) depend on the data fork
-        ex2, rpaths = common.explore(lambda: D.read_back(q.matrix, v), max_paths=48, assume=path.pc, catch=(decoder.DecodeError,))
+        try:
+            ex2, rpaths = common.explore(lambda: D.read_back(q.matrix, v), max_paths=48, assume=path.pc, catch=(decoder.DecodeError,))
+        except PathBudgetExceeded:
+            # the control fields of a correct symbol of a fixed shape are constants: a reader that has to branch on more than 48
+            # data-dependent field values is looking at a malformed stream; the model is replayed like any other counterexample
+            r, m = check(path.pc)
+            res.obligations += 1
+            res.violation('undecodable', 'reference reader: control fields (mode / count indicators) depend on the content bytes',
+                          to_input(m) if m is not None else {'parts': [], 'kw': kw})
+            continue
         for rp in rpaths:
             if rp.status != 'ok':
                 r, m = check(rp.pc)
